@@ -75,32 +75,100 @@ fn enumeral(input: Input<'_>) -> ParserResult<'_, EnumeralInput<'_>> {
     .parse(input)
 }
 
-fn enumerals<'a>(
-    start_index: usize,
-) -> impl Parser<Input<'a>, Output = Vec<Enumeral>, Error = ErrorTree<'a>> {
+/// Parses a list of enumerals. The `bool` records whether the enumeral carries an explicit
+/// number; identifier-only enumerals are numbered by the caller.
+fn raw_enumerals<'a>(
+) -> impl Parser<Input<'a>, Output = Vec<(Enumeral, bool)>, Error = ErrorTree<'a>> {
     fold_many0(
         enumeral,
-        Vec::<Enumeral>::new,
+        Vec::<(Enumeral, bool)>::new,
         move |mut acc, (name, index, _, comments)| {
-            acc.push(Enumeral {
-                name: name.into(),
-                description: comments.map(|c| c.into()),
-                index: index.unwrap_or((acc.len() + start_index) as i128),
-            });
+            acc.push((
+                Enumeral {
+                    name: name.into(),
+                    description: comments.map(|c| c.into()),
+                    index: index.unwrap_or_default(),
+                },
+                index.is_some(),
+            ));
             acc
         },
     )
 }
 
+#[cfg(test)]
+fn enumerals<'a>(
+    start_index: usize,
+) -> impl Parser<Input<'a>, Output = Vec<Enumeral>, Error = ErrorTree<'a>> {
+    map(raw_enumerals(), move |raw| {
+        raw.into_iter()
+            .enumerate()
+            .map(|(i, (mut enumeral, explicit))| {
+                if !explicit {
+                    enumeral.index = (i + start_index) as i128;
+                }
+                enumeral
+            })
+            .collect()
+    })
+}
+
+/// Assigns numbers to identifier-only enumerals as specified in ITU-T X.680 clause 20:
+/// in the root, successive integers starting with 0, excluding the numbers employed in
+/// `NamedNumber`s of the root (20.3); after the extension marker, the smallest value that
+/// is not used in the root and is larger than all preceding additional enumerals (20.6).
+fn number_enumerals(
+    root: Vec<(Enumeral, bool)>,
+    additional: Option<Vec<(Enumeral, bool)>>,
+) -> (Vec<Enumeral>, Option<Vec<Enumeral>>) {
+    let explicit_in_root: Vec<i128> = root
+        .iter()
+        .filter_map(|(e, explicit)| explicit.then_some(e.index))
+        .collect();
+    let mut next = 0;
+    let root: Vec<Enumeral> = root
+        .into_iter()
+        .map(|(mut e, explicit)| {
+            if !explicit {
+                while explicit_in_root.contains(&next) {
+                    next += 1;
+                }
+                e.index = next;
+                next += 1;
+            }
+            e
+        })
+        .collect();
+    let mut previous: Option<i128> = None;
+    let additional = additional.map(|additional| {
+        additional
+            .into_iter()
+            .map(|(mut e, explicit)| {
+                if !explicit {
+                    let mut candidate = previous.map_or(0, |p| (p + 1).max(0));
+                    while root.iter().any(|r| r.index == candidate) {
+                        candidate += 1;
+                    }
+                    e.index = candidate;
+                }
+                previous = Some(previous.map_or(e.index, |p| p.max(e.index)));
+                e
+            })
+            .collect()
+    });
+    (root, additional)
+}
+
 fn enumerated_body(input: Input<'_>) -> ParserResult<'_, EnumeralBody> {
     in_braces(|input| {
-        let (input, root_enumerals) = enumerals(0).parse(input)?;
+        let (input, root_enumerals) = raw_enumerals().parse(input)?;
         let (input, ext_marker) = opt(terminated(
             extension_marker,
             skip_ws_and_comments(opt(char(COMMA))),
         ))
         .parse(input)?;
-        let (input, ext_enumerals) = opt(enumerals(root_enumerals.len())).parse(input)?;
+        let (input, ext_enumerals) = opt(raw_enumerals()).parse(input)?;
+        let (root_enumerals, ext_enumerals) = number_enumerals(root_enumerals, ext_enumerals);
         Ok((input, (root_enumerals, ext_marker, ext_enumerals)))
     })
     .parse(input)
